@@ -372,12 +372,10 @@ def merge_loads_strict(ck: Checker, rule: str) -> None:
     for c in bad:
         ck.fail(rule, fn, c, f"merge() loads an input with `{norm(c)[:50]}`, which swallows a missing / corrupt object: the merge then runs against an empty tree and resurrects or drops entries instead of failing",
                 construct=f"{norm(c)[:40]} / tolerant load")
-    loads = [c for c in walk_own(fn.node) if isinstance(c, ast.Call) and call_name(c) == "load" and len(c.args) >= 2]
-    if bad and len(loads) < 3:
+    loads = [c for c in ast.walk(fn.node) if isinstance(c, ast.Call) and call_name(c) == "load" and len(c.args) >= 2]
+    if bad:
         return
-    ck.floor(rule, len(loads), 3, "load(odb, <info>) calls in tree.merge")
-    infos = sorted({norm(c.args[1]) for c in loads})
-    ck.require({"ancestor_info", "our_info", "their_info"} <= set(infos), rule, fn, fn.node, "ancestor, ours and theirs are each loaded from their own id", f"merge() loads {infos}", construct="load(odb, *_info)")
+    ck.floor(rule, len(loads), 1, "load(odb, <info>) calls in tree.merge")
     # Tree() stands in for the ancestor only when no ancestor id was given
     for n in g.nodes.values():
         a = n.ast
